@@ -66,6 +66,34 @@ fn run_raw(pool: &mut crate::fams::fam_c29::Pool, c: &Value) -> Value {
     i
 }
 
+/// stratum `shape:union-plain-then-join` (fixed tables of family C29: t1 60 rows / 2 batches, t2 30 rows / 1 batch, mb 99 rows / 1 batch,
+/// big 2 500 rows / 3 batches): UNION ALL of a plain scan/projection and a hash join that projects a VARCHAR column of the small
+/// single-batch build side (the shape whose gathers are dictionary-encoded inside the engine), in both branch orders, the join alone,
+/// three branches, multi-batch probe sides, LEFT joins - the reported schema must describe EVERY returned batch.
+fn gen_union_join(r: &mut Rng) -> String {
+    let plain = |r: &mut Rng| ["SELECT a AS id, s AS txt FROM t1","SELECT k AS id, name AS txt FROM t2","SELECT n AS id, s AS txt FROM mb","SELECT x AS id, y AS txt FROM empty1",
+        "SELECT a AS id, UPPER(s) AS txt FROM t1 WHERE a < 40","SELECT k AS id, CAST(g AS VARCHAR) AS txt FROM big WHERE k < 5"][r.below(6) as usize].to_string();
+    let join = |r: &mut Rng| {
+        let (probe, pk) = [("big p","p.k"),("t1 p","p.a"),("big p","p.k"),("t1 p","p.b")][r.below(4) as usize];
+        let (build, bk, bs) = [("t2 d","d.k","d.name"),("mb d","d.n","d.s"),("mb d","d.n","d.p"),("t2 d","d.k","d.name")][r.below(4) as usize];
+        let jt = ["JOIN","JOIN","JOIN","LEFT JOIN","RIGHT JOIN"][r.below(5) as usize];
+        let (l, rr) = if r.chance(1, 4) { (build, probe) } else { (probe, build) };
+        let wh = if r.chance(1, 3) { format!(" WHERE {} < {}", pk, [3, 10, 100][r.below(3) as usize]) } else { String::new() };
+        let extra = if r.chance(1, 4) { format!(", {} AS txt2", bs) } else { String::new() };
+        (format!("SELECT {} AS id, {} AS txt{} FROM {} {} {} ON {} = {}{}", pk, bs, extra, l, jt, rr, pk, bk, wh), !extra.is_empty())
+    };
+    let (j, wide) = join(r);
+    let pl = |r: &mut Rng| { let p = plain(r); if wide { p.replace(" AS txt FROM", " AS txt, 'x' AS txt2 FROM") } else { p } };
+    match r.below(8) {
+        0 => j,
+        1 | 2 | 3 => format!("{} UNION ALL {}", pl(r), j),
+        4 => format!("{} UNION ALL {}", j, pl(r)),
+        5 => format!("{} UNION ALL {} UNION ALL {}", pl(r), j, pl(r)),
+        6 => format!("{} UNION ALL {} UNION ALL {}", pl(r), pl(r), j),
+        _ => { let (j2, w2) = join(r); if w2 == wide { format!("{} UNION ALL {} UNION ALL {}", pl(r), j, j2) } else { format!("{} UNION ALL {}", pl(r), j) } }
+    }
+}
+
 pub fn main(o: &Opts) {
     let mut pool = crate::fams::fam_c29::Pool::new(10_000);
     if let Some(p) = &o.replay {
@@ -80,6 +108,12 @@ pub fn main(o: &Opts) {
     let mut r = Rng::new(o.seed ^ 0xC30);
     let mut cat = gen_catalog(&mut r, &copts);
     for n in 0..o.cases {
+        if n % 10 == 7 || n % 10 == 2 {
+            let c = json!({"kind":"raw","setup":"std","tags":["s:raw","shape:union-plain-then-join"],"sql": gen_union_join(&mut r)});
+            let i = run_raw(&mut pool, &c);
+            emit(c, i);
+            continue;
+        }
         if n % 4 == 3 {
             let c = json!({"kind":"raw","setup":"std","tags":["s:raw"],"sql": crate::fams::fam_c29::gen_tame(&mut r)});
             let i = run_raw(&mut pool, &c);
